@@ -10,6 +10,24 @@ E3 = 'TLC model checking of a TLA+ model generated from the documented tables, w
 
 # pid -> (engine, technique, level text, note, design_ref)
 CHECKS = {
+    'C01': ('E1', E1,
+            'Full cross product of input shapes 1..5/1..7 (both parities, non-square), output shapes unrelated to the input, '
+            'scalar/per-axis/negative/full-period alpha, fractional shifts, integer offsets of either sign, both normalisation '
+            'flags and out= modes; dense generic payload plus every unit impulse for small inputs (the transform is linear, so '
+            'the impulses pin the whole operator). Every leaf is compared with the defining double sum evaluated with exact '
+            'rational phase reduction, run cold and warm through the coordinate cache; the full-period sub-tree checks the inverse '
+            'and Parseval for both flags.',
+            'Trusted: numpy/BLAS; reference sum in mc/refmodel.py; sizes above 7 are outside the bound.',
+            'DESIGN.md section 4 C01'),
+    'C02': ('E1', E1,
+            'Cross product of pupil shapes (even/odd/non-square), supports (full, off-centre, off-axis block), scalar and per-axis '
+            'input/output pixel scales, two (wavelength, focal length) pairs, oversample 1..3, both directions, output shapes, '
+            'propagation windows and ~45 masks per output. For every leaf the set of evaluated samples (rendered by independent '
+            'index arithmetic) must equal the centred window / mask bounding box, every evaluated sample must equal the unitary '
+            'reference Fraunhofer sum looked up by output coordinate on one canonical grid per physical configuration (so all '
+            'shape/prop_shape/mask variants are compared on their common samples), zero elsewhere, with the documented metadata.',
+            'Trusted: numpy; reference sum; single-pixel apertures (one-element fields) are outside the alphabet.',
+            'DESIGN.md section 4 C02'),
     'C06': ('E1+E2', E1 + '; ' + E2 + ' (reduce)',
             'Every ordered pair of small fields (all parities, all offsets of either sign in a square, one-element fields), '
             'every field x target x mode x weight for insert, every ordered sequence of up to 3/4 fields for reduce and every '
